@@ -18,6 +18,13 @@
 (*   Pull[s] top   (ctx check in the pull loop)    read (leaf.Next: ctx    *)
 (*          check, storage read - may fail)   send (blocking send)  close  *)
 (*   Drain[s] wait (<-ctx.Done)   drain (for range buffer)                 *)
+(* All shards read one shared series selector (execution/storage/            *)
+(* series_selector.go): the first pull goroutine that reaches it runs       *)
+(* loadSeries inside sync.Once - open a querier, Select, close the querier  *)
+(* (defer) - while the others block on the Once; if loading fails the Once  *)
+(* is spent: only the loading shard sees the error, the others see an empty *)
+(* series list and end their streams normally.  Load pcs: lopen (about to   *)
+(* call Querier()), lsel (querier open, Select / series set), lclose.       *)
 (* Environment: Cancel (context cancelled / deadline / Query.Cancel), at   *)
 (* any time before Exec returns; StorageFault: one storage read fails      *)
 (* (error, or a recovered panic) at a nondeterministically chosen read.    *)
@@ -28,31 +35,35 @@ CONSTANTS S,        \* number of shards (concurrency operators below the coalesc
           K,        \* batches per leaf
           Cap,      \* buffer capacity (2 in the code)
           Recheck,  \* TRUE: Exec looks at the context after its loop (the repaired code)
-          Faults    \* TRUE: one storage read may fail
+          Faults,   \* TRUE: one storage read may fail
+          RecvSelectsCtx  \* FALSE: concurrencyOperator.Next blocks on the buffer (the code); TRUE: it also
+                          \* selects on ctx.Done (a plausible change - used as the non-vacuity control for the querier clauses)
 
 Shards == 1..S
-VARIABLES ctx, mainPc, got, result, fanPc, fanRes, started, buf, closed, pullPc, pullMsg, produced, drainPc, faultLeft, faultFired
-vars == <<ctx, mainPc, got, result, fanPc, fanRes, started, buf, closed, pullPc, pullMsg, produced, drainPc, faultLeft, faultFired>>
+VARIABLES ctx, mainPc, got, result, fanPc, fanRes, started, buf, closed, pullPc, pullMsg, produced, drainPc, faultLeft, faultFired,
+          load, openQ, qhist
+vars == <<ctx, mainPc, got, result, fanPc, fanRes, started, buf, closed, pullPc, pullMsg, produced, drainPc, faultLeft, faultFired, load, openQ, qhist>>
 
 Init == /\ ctx = "live" /\ mainPc = "check" /\ got = 0 /\ result = "none"
         /\ fanPc = [s \in Shards |-> "idle"] /\ fanRes = [s \in Shards |-> "none"]
         /\ started = [s \in Shards |-> FALSE] /\ buf = [s \in Shards |-> <<>>] /\ closed = [s \in Shards |-> FALSE]
         /\ pullPc = [s \in Shards |-> "idle"] /\ pullMsg = [s \in Shards |-> "none"] /\ produced = [s \in Shards |-> 0]
         /\ drainPc = [s \in Shards |-> "idle"] /\ faultLeft = Faults /\ faultFired = FALSE
+        /\ load = "no" /\ openQ = 0 /\ qhist = [opened |-> 0, closed |-> 0, late |-> FALSE]
 
 \* ------------------------------------------------------------------ environment
 Cancel == /\ ctx = "live" /\ mainPc # "done" /\ ctx' = "cancelled"
-          /\ UNCHANGED <<mainPc, got, result, fanPc, fanRes, started, buf, closed, pullPc, pullMsg, produced, drainPc, faultLeft, faultFired>>
+          /\ UNCHANGED <<mainPc, got, result, fanPc, fanRes, started, buf, closed, pullPc, pullMsg, produced, drainPc, faultLeft, faultFired, load, openQ, qhist>>
 
 \* ------------------------------------------------------------------ Main (Exec)
 MainCheck == /\ mainPc = "check"
              /\ IF ctx = "cancelled" THEN mainPc' = "ret" /\ result' = "ctxerr" ELSE mainPc' = "fan" /\ UNCHANGED result
-             /\ UNCHANGED <<ctx, got, fanPc, fanRes, started, buf, closed, pullPc, pullMsg, produced, drainPc, faultLeft, faultFired>>
+             /\ UNCHANGED <<ctx, got, fanPc, fanRes, started, buf, closed, pullPc, pullMsg, produced, drainPc, faultLeft, faultFired, load, openQ, qhist>>
 \* coalesce.Next: ctx check, then one goroutine per child
 MainFan == /\ mainPc = "fan"
            /\ IF ctx = "cancelled" THEN mainPc' = "ret" /\ result' = "ctxerr" /\ UNCHANGED <<fanPc, fanRes>>
               ELSE /\ mainPc' = "join" /\ fanPc' = [s \in Shards |-> "ctx"] /\ fanRes' = [s \in Shards |-> "none"] /\ UNCHANGED result
-           /\ UNCHANGED <<ctx, got, started, buf, closed, pullPc, pullMsg, produced, drainPc, faultLeft, faultFired>>
+           /\ UNCHANGED <<ctx, got, started, buf, closed, pullPc, pullMsg, produced, drainPc, faultLeft, faultFired, load, openQ, qhist>>
 MainJoin == /\ mainPc = "join" /\ \A s \in Shards : fanPc[s] = "done"
             /\ IF \E s \in Shards : fanRes[s] \in {"err", "ctxerr"}
                  THEN /\ mainPc' = "ret" /\ UNCHANGED got
@@ -62,13 +73,13 @@ MainJoin == /\ mainPc = "join" /\ \A s \in Shards : fanPc[s] = "done"
                    ELSE \* a merged batch (of the children that delivered one) is assembled
                         mainPc' = "check" /\ got' = got + 1 /\ UNCHANGED result
             /\ fanPc' = [s \in Shards |-> "idle"]
-            /\ UNCHANGED <<ctx, fanRes, started, buf, closed, pullPc, pullMsg, produced, drainPc, faultLeft, faultFired>>
+            /\ UNCHANGED <<ctx, fanRes, started, buf, closed, pullPc, pullMsg, produced, drainPc, faultLeft, faultFired, load, openQ, qhist>>
 MainAfter == /\ mainPc = "after"
              /\ mainPc' = "ret"
              /\ result' = IF Recheck /\ ctx = "cancelled" THEN "ctxerr" ELSE IF got = K THEN "ok" ELSE "partial-ok"
-             /\ UNCHANGED <<ctx, got, fanPc, fanRes, started, buf, closed, pullPc, pullMsg, produced, drainPc, faultLeft, faultFired>>
+             /\ UNCHANGED <<ctx, got, fanPc, fanRes, started, buf, closed, pullPc, pullMsg, produced, drainPc, faultLeft, faultFired, load, openQ, qhist>>
 MainRet == /\ mainPc = "ret" /\ mainPc' = "done" /\ ctx' = "cancelled"       \* defer cancel()
-           /\ UNCHANGED <<got, result, fanPc, fanRes, started, buf, closed, pullPc, pullMsg, produced, drainPc, faultLeft, faultFired>>
+           /\ UNCHANGED <<got, result, fanPc, fanRes, started, buf, closed, pullPc, pullMsg, produced, drainPc, faultLeft, faultFired, load, openQ, qhist>>
 
 \* ------------------------------------------------------------------ Fan[s] (a coalesce child call = concurrencyOperator.Next)
 FanCtx(s) == /\ fanPc[s] = "ctx"
@@ -77,56 +88,82 @@ FanCtx(s) == /\ fanPc[s] = "ctx"
                      /\ IF started[s] THEN UNCHANGED <<started, pullPc, drainPc>>
                         ELSE /\ started' = [started EXCEPT ![s] = TRUE]
                              /\ pullPc' = [pullPc EXCEPT ![s] = "top"] /\ drainPc' = [drainPc EXCEPT ![s] = "wait"]
-             /\ UNCHANGED <<ctx, mainPc, got, result, buf, closed, pullMsg, produced, faultLeft, faultFired>>
+             /\ UNCHANGED <<ctx, mainPc, got, result, buf, closed, pullMsg, produced, faultLeft, faultFired, load, openQ, qhist>>
 FanRecv(s) == /\ fanPc[s] = "recv"
               /\ \/ /\ buf[s] # <<>>
                     /\ buf' = [buf EXCEPT ![s] = Tail(@)]
                     /\ fanRes' = [fanRes EXCEPT ![s] = Head(buf[s])]
                  \/ /\ buf[s] = <<>> /\ closed[s]
                     /\ fanRes' = [fanRes EXCEPT ![s] = "end"] /\ UNCHANGED buf
+                 \/ /\ RecvSelectsCtx /\ ctx = "cancelled"
+                    /\ fanRes' = [fanRes EXCEPT ![s] = "ctxerr"] /\ UNCHANGED buf
               /\ fanPc' = [fanPc EXCEPT ![s] = "done"]
-              /\ UNCHANGED <<ctx, mainPc, got, result, started, closed, pullPc, pullMsg, produced, drainPc, faultLeft, faultFired>>
+              /\ UNCHANGED <<ctx, mainPc, got, result, started, closed, pullPc, pullMsg, produced, drainPc, faultLeft, faultFired, load, openQ, qhist>>
 
 \* ------------------------------------------------------------------ Pull[s]
 PullTop(s) == /\ pullPc[s] = "top"
               /\ IF ctx = "cancelled" THEN pullPc' = [pullPc EXCEPT ![s] = "send"] /\ pullMsg' = [pullMsg EXCEPT ![s] = "ctxerr"]
                  ELSE pullPc' = [pullPc EXCEPT ![s] = "read"] /\ UNCHANGED pullMsg
-              /\ UNCHANGED <<ctx, mainPc, got, result, fanPc, fanRes, started, buf, closed, produced, drainPc, faultLeft, faultFired>>
-\* leaf.Next: ctx check, then the storage read (which may fail)
+              /\ UNCHANGED <<ctx, mainPc, got, result, fanPc, fanRes, started, buf, closed, produced, drainPc, faultLeft, faultFired, load, openQ, qhist>>
+\* leaf.Next: ctx check, then (first call) the shared selector's Once, then the storage read (which may fail)
 PullRead(s) == /\ pullPc[s] = "read"
                /\ \/ /\ ctx = "cancelled"
-                     /\ pullPc' = [pullPc EXCEPT ![s] = "send"] /\ pullMsg' = [pullMsg EXCEPT ![s] = "ctxerr"] /\ UNCHANGED <<produced, faultLeft, faultFired>>
-                  \/ /\ ctx = "live" /\ produced[s] = K
-                     /\ pullPc' = [pullPc EXCEPT ![s] = "close"] /\ UNCHANGED <<pullMsg, produced, faultLeft, faultFired>>
-                  \/ /\ ctx = "live" /\ produced[s] < K
+                     /\ pullPc' = [pullPc EXCEPT ![s] = "send"] /\ pullMsg' = [pullMsg EXCEPT ![s] = "ctxerr"] /\ UNCHANGED <<produced, faultLeft, faultFired, load>>
+                  \/ /\ ctx = "live" /\ load = "no"                               \* this shard wins the Once
+                     /\ load' = "loading" /\ pullPc' = [pullPc EXCEPT ![s] = "lopen"] /\ UNCHANGED <<pullMsg, produced, faultLeft, faultFired>>
+                  \/ /\ ctx = "live" /\ load = "failed"                           \* Once spent by a failed load: empty series list, no error
+                     /\ pullPc' = [pullPc EXCEPT ![s] = "close"] /\ UNCHANGED <<pullMsg, produced, faultLeft, faultFired, load>>
+                  \/ /\ ctx = "live" /\ load = "done" /\ produced[s] = K
+                     /\ pullPc' = [pullPc EXCEPT ![s] = "close"] /\ UNCHANGED <<pullMsg, produced, faultLeft, faultFired, load>>
+                  \/ /\ ctx = "live" /\ load = "done" /\ produced[s] < K
                      /\ pullPc' = [pullPc EXCEPT ![s] = "send"] /\ pullMsg' = [pullMsg EXCEPT ![s] = "batch"]
-                     /\ produced' = [produced EXCEPT ![s] = @ + 1] /\ UNCHANGED <<faultLeft, faultFired>>
-                  \/ /\ ctx = "live" /\ produced[s] < K /\ faultLeft          \* StorageFault at this read
+                     /\ produced' = [produced EXCEPT ![s] = @ + 1] /\ UNCHANGED <<faultLeft, faultFired, load>>
+                  \/ /\ ctx = "live" /\ load = "done" /\ produced[s] < K /\ faultLeft          \* StorageFault at this read (sample iterator)
                      /\ pullPc' = [pullPc EXCEPT ![s] = "send"] /\ pullMsg' = [pullMsg EXCEPT ![s] = "err"]
-                     /\ faultLeft' = FALSE /\ faultFired' = TRUE /\ UNCHANGED produced
-               /\ UNCHANGED <<ctx, mainPc, got, result, fanPc, fanRes, started, buf, closed, drainPc>>
+                     /\ faultLeft' = FALSE /\ faultFired' = TRUE /\ UNCHANGED <<produced, load>>
+                  \* load = "loading" by another shard: blocked on the Once (no disjunct)
+               /\ UNCHANGED <<ctx, mainPc, got, result, fanPc, fanRes, started, buf, closed, drainPc, openQ, qhist>>
+\* loadSeries, three steps: storage.Querier() [may fail: nothing was opened], Select + series set [may fail], deferred Close
+LoadOpen(s) == /\ pullPc[s] = "lopen"
+               /\ \/ /\ pullPc' = [pullPc EXCEPT ![s] = "lsel"] /\ openQ' = openQ + 1
+                     /\ qhist' = [qhist EXCEPT !.opened = @ + 1, !.late = @ \/ mainPc = "done"]
+                     /\ UNCHANGED <<pullMsg, faultLeft, faultFired, load>>
+                  \/ /\ faultLeft /\ faultLeft' = FALSE /\ faultFired' = TRUE /\ load' = "failed"
+                     /\ pullPc' = [pullPc EXCEPT ![s] = "send"] /\ pullMsg' = [pullMsg EXCEPT ![s] = "err"] /\ UNCHANGED <<openQ, qhist>>
+               /\ UNCHANGED <<ctx, mainPc, got, result, fanPc, fanRes, started, buf, closed, produced, drainPc>>
+LoadSelect(s) == /\ pullPc[s] = "lsel"
+                 /\ \/ /\ pullMsg' = [pullMsg EXCEPT ![s] = "none"] /\ UNCHANGED <<faultLeft, faultFired>>
+                    \/ /\ faultLeft /\ faultLeft' = FALSE /\ faultFired' = TRUE /\ pullMsg' = [pullMsg EXCEPT ![s] = "err"]
+                 /\ pullPc' = [pullPc EXCEPT ![s] = "lclose"]
+                 /\ UNCHANGED <<ctx, mainPc, got, result, fanPc, fanRes, started, buf, closed, produced, drainPc, load, openQ, qhist>>
+LoadClose(s) == /\ pullPc[s] = "lclose"
+                /\ openQ' = openQ - 1
+                /\ qhist' = [qhist EXCEPT !.closed = @ + 1, !.late = @ \/ mainPc = "done"]
+                /\ IF pullMsg[s] = "err" THEN load' = "failed" /\ pullPc' = [pullPc EXCEPT ![s] = "send"]
+                   ELSE load' = "done" /\ pullPc' = [pullPc EXCEPT ![s] = "read"]
+                /\ UNCHANGED <<ctx, mainPc, got, result, fanPc, fanRes, started, buf, closed, pullMsg, produced, drainPc, faultLeft, faultFired>>
 PullSend(s) == /\ pullPc[s] = "send" /\ Len(buf[s]) < Cap
                /\ buf' = [buf EXCEPT ![s] = Append(@, pullMsg[s])]
                /\ pullPc' = [pullPc EXCEPT ![s] = IF pullMsg[s] = "batch" THEN "top" ELSE "close"]
-               /\ UNCHANGED <<ctx, mainPc, got, result, fanPc, fanRes, started, closed, pullMsg, produced, drainPc, faultLeft, faultFired>>
+               /\ UNCHANGED <<ctx, mainPc, got, result, fanPc, fanRes, started, closed, pullMsg, produced, drainPc, faultLeft, faultFired, load, openQ, qhist>>
 PullClose(s) == /\ pullPc[s] = "close" /\ closed' = [closed EXCEPT ![s] = TRUE] /\ pullPc' = [pullPc EXCEPT ![s] = "exit"]
-                /\ UNCHANGED <<ctx, mainPc, got, result, fanPc, fanRes, started, buf, pullMsg, produced, drainPc, faultLeft, faultFired>>
+                /\ UNCHANGED <<ctx, mainPc, got, result, fanPc, fanRes, started, buf, pullMsg, produced, drainPc, faultLeft, faultFired, load, openQ, qhist>>
 
 \* ------------------------------------------------------------------ Drain[s]
 DrainWake(s) == /\ drainPc[s] = "wait" /\ ctx = "cancelled" /\ drainPc' = [drainPc EXCEPT ![s] = "drain"]
-                /\ UNCHANGED <<ctx, mainPc, got, result, fanPc, fanRes, started, buf, closed, pullPc, pullMsg, produced, faultLeft, faultFired>>
+                /\ UNCHANGED <<ctx, mainPc, got, result, fanPc, fanRes, started, buf, closed, pullPc, pullMsg, produced, faultLeft, faultFired, load, openQ, qhist>>
 DrainStep(s) == /\ drainPc[s] = "drain"
                 /\ \/ buf[s] # <<>> /\ buf' = [buf EXCEPT ![s] = Tail(@)] /\ UNCHANGED drainPc
                    \/ buf[s] = <<>> /\ closed[s] /\ drainPc' = [drainPc EXCEPT ![s] = "exit"] /\ UNCHANGED buf
-                /\ UNCHANGED <<ctx, mainPc, got, result, fanPc, fanRes, started, closed, pullPc, pullMsg, produced, faultLeft, faultFired>>
+                /\ UNCHANGED <<ctx, mainPc, got, result, fanPc, fanRes, started, closed, pullPc, pullMsg, produced, faultLeft, faultFired, load, openQ, qhist>>
 
 Thread == MainCheck \/ MainFan \/ MainJoin \/ MainAfter \/ MainRet
-          \/ \E s \in Shards : FanCtx(s) \/ FanRecv(s) \/ PullTop(s) \/ PullRead(s) \/ PullSend(s) \/ PullClose(s) \/ DrainWake(s) \/ DrainStep(s)
+          \/ \E s \in Shards : FanCtx(s) \/ FanRecv(s) \/ PullTop(s) \/ PullRead(s) \/ LoadOpen(s) \/ LoadSelect(s) \/ LoadClose(s) \/ PullSend(s) \/ PullClose(s) \/ DrainWake(s) \/ DrainStep(s)
 \* the only terminal states: Exec has returned and every goroutine of the query has exited
 Finished == mainPc = "done" /\ \A s \in Shards : ~started[s] \/ (pullPc[s] = "exit" /\ drainPc[s] = "exit")
 Next == Cancel \/ Thread \/ (Finished /\ UNCHANGED vars)
 Fairness == /\ WF_vars(MainCheck) /\ WF_vars(MainFan) /\ WF_vars(MainJoin) /\ WF_vars(MainAfter) /\ WF_vars(MainRet)
-            /\ \A s \in Shards : /\ WF_vars(FanCtx(s)) /\ WF_vars(FanRecv(s)) /\ WF_vars(PullTop(s)) /\ WF_vars(PullRead(s))
+            /\ \A s \in Shards : /\ WF_vars(FanCtx(s)) /\ WF_vars(FanRecv(s)) /\ WF_vars(PullTop(s)) /\ WF_vars(PullRead(s)) /\ WF_vars(LoadOpen(s)) /\ WF_vars(LoadSelect(s)) /\ WF_vars(LoadClose(s))
                                  /\ WF_vars(PullSend(s)) /\ WF_vars(PullClose(s)) /\ WF_vars(DrainWake(s)) /\ WF_vars(DrainStep(s))
 Spec == Init /\ [][Next]_vars /\ Fairness
 
@@ -138,6 +175,12 @@ NoPartialSuccess == result # "partial-ok"
 SuccessIsComplete == result = "ok" => got = K /\ ~faultFired
 \* C15: a storage failure that fired is reported (as that error, or as the context's error if a cancellation won)
 ErrorSurfaces == (mainPc = "done" /\ faultFired) => result \in {"err", "ctxerr"}
+\* C17: at most one querier per selector, opened and closed by the same goroutine, and none is open - or is opened or
+\* closed - once Exec has returned; every querier that was opened is closed exactly once
+QuerierClosedAtReturn == mainPc = "done" => openQ = 0 /\ ~qhist.late
+QuerierBalanced == openQ \in {0, 1} /\ qhist.opened = qhist.closed + openQ /\ qhist.opened <= 1
+\* C15 with the spent Once: the shards that see an empty list after a failed load never turn the failure into a success
+FailedLoadNeverSucceeds == (mainPc = "done" /\ load = "failed") => result \in {"err", "ctxerr"}
 \* C14: Exec always returns; afterwards every goroutine started for the query exits
 ExecReturns == <>(mainPc = "done")
 GoroutinesExit == <>[](mainPc = "done" /\ \A s \in Shards : started[s] => (pullPc[s] = "exit" /\ drainPc[s] = "exit"))
